@@ -6,6 +6,12 @@ import OvniModel.Lemmas.BayTotal
 import OvniModel.Lemmas.BayTopo
 import OvniModel.Lemmas.CoreBayView
 import OvniModel.Lemmas.CoreBayTotal
+import OvniModel.Lemmas.CoreBayFresh
+import OvniModel.Lemmas.EmitEmu
+import OvniModel.Lemmas.EmitInit
+import OvniModel.Emu.Basic
+import OvniModel.Lemmas.TaskHook
+import OvniModel.Lemmas.SysEmit
 
 /-!
 # C06 — view consistency: the tracking muxes compute `thView` / `cpuView`
@@ -22,6 +28,14 @@ function on the select channel's current value, `mux->selected` is that input
 (`strong`; it is `false` only before the select channel was ever propagated,
 because `mux_init` leaves `selected = 0`), and
 `output = spec(select value, input values)`.
+
+Emit side (sections "The emit phase", "The system rows"): `Emu/Emit.lean`
+transcribes `prv_register` / `emit` of `pv/prv.c` and the second loop of
+`bay_propagate`; the theorems relate the lines the PRV callbacks write to
+`View.records` (`emit_step`, `emu_event_emit`, `emu_event_fail_iff`,
+`emu_step_lines`, `emu_history_emit`, `emu_run_emit_driver`).  Task layer
+(section "The task layer"): `Emu/TaskHook.lean`, `emu_event_task`,
+`emu_history_task` — no hook hypothesis.
 -/
 namespace Ovni.Props.C06
 open Ovni.Emu Ovni.Generated
@@ -861,6 +875,741 @@ theorem emu_run_driver (threads : List (Int × Int × Nat)) (cpus : List (Nat ×
     (markExtra tab) evs hc hnt hchars hinit h
   exact ⟨_, bF, hc, hr, hsF, hshF, hiF⟩
 
+/-! ### The emit phase: what the PRV callbacks write, and `View.records`
+
+Model: `Emu/Emit.lean` (`prv_register` table `Shape.regs`, `emit` = `emitOne`,
+`Bay.propagateP` = `bay_propagate` with the emit callbacks).  `lvs` = the
+`last_value`s of the registrations, `tvs` = what every Paraver row shows (value
+of its last line, 0 before the first).  `EmitInv regs lvs tvs b`: both are
+consistent with the registered channels of the clean bay `b`.  `fresh c`: the
+`th_running` channel of CPU `c` has not been written since `emu_connect`;
+`cpuViewC fresh …` is `cpuView`, except that a fresh CPU shows null on a channel
+with a mux default (`FreshInv`: those tracks are still virgin, every other mux is
+in sync).  `viewRecordsC old new fo fn` = the model rows of `records` with
+`cpuViewC`; `viewRecords` = `viewRecordsC` without fresh CPUs
+(`viewRecordsC_false`); `records` = `sysRecords` + `viewRecords`
+(`records_split`). -/
+
+/-- A fresh CPU stays fresh while the handlers do not write its `th_running`. -/
+def freshE (fresh : Nat → Bool) (e' : Emu) : Nat → Bool :=
+  fun c => fresh c && !(match e'.cpus[c]? with
+    | some x => x.chThrun.dirty
+    | none => false)
+
+/-- The CPU track of (c, k, i): where it is, and what it shows when in sync. -/
+theorem emu_cpu_track {e : Emu} {b0 b : Bay} (hc : e.shape.connect = .ok b0) (hs : Shaped e)
+    (hi : Inv b0 e b) {c k i : Nat} {x : Cpu} {m : ModelSpec}
+    (hx : e.cpus[c]? = some x) (hk : e.specs[k]? = some m) (hil : i < m.nch) :
+    ∃ (mi : Nat) (mx : Mux), b.muxes[mi]? = some mx ∧ mx.sel = e.shape.idx (.run c) ∧
+      mx.out = e.shape.cpuOut c k i ∧ mx.dflt = m.cpuDflt i ∧ b.chan mx.sel = x.chThrun ∧
+      (b.MuxSync false mi mx → (b.chan (e.shape.cpuOut c k i)).cur = cpuView e x m i) := by
+  have hcl : c < e.cpus.length := (List.getElem?_eq_some_iff.mp hx).1
+  obtain ⟨mi, mx, hm, rfl⟩ := hi.cpuMux hc hcl hk hil
+  have hsel : b.chan (e.shape.idx (.run c)) = x.chThrun := by
+    have hsrc : e.src (.run c) = some x.chThrun := by simp only [Emu.src, hx, Option.map_some]
+    exact Bay.chan_of_getElem? (hi.mirrors _ _ hsrc)
+  refine ⟨mi, _, hm, rfl, rfl, rfl, hsel, ?_⟩
+  intro hsync
+  refine track_cpu_cpuView (rs := e.shape.rawsOf k i) e x m i ⟨rfl, rfl, rfl⟩ hsync (by rw [hsel])
+    (by simp [Shape.rawsOf, Emu.shape]) ?_ rfl
+  intro g t ht
+  obtain ⟨cs, hcs, hmch, hlen⟩ := hs.getChans ht hk
+  refine ⟨cs, hcs, ?_⟩
+  have : (e.shape.rawsOf k i).getD g 0 = e.shape.idx (.raw g k i) := by
+    have hg : g < e.threads.length := (List.getElem?_eq_some_iff.mp ht).1
+    simp only [Shape.rawsOf, List.getD_eq_getElem?_getD, List.getElem?_map]
+    rw [List.getElem?_range (show g < e.shape.nT from hg)]; rfl
+  rw [this, hi.raw_cur ht hmch (by rw [hlen]; exact hil)]
+
+/-- **emu_cpu_rows, exact.**  With the ghost `fresh` (`FreshInv`), the output
+    of EVERY CPU track is `cpuViewC (fresh c)`: `cpuView`, or null on a track with
+    a mux default whose CPU never had its `th_running` written. -/
+theorem emu_cpu_rows_fresh {e : Emu} {b0 b : Bay} {fresh : Nat → Bool} (hc : e.shape.connect = .ok b0)
+    (hs : Shaped e) (hi : Inv b0 e b) (hf : FreshInv e.shape b fresh) {c k i : Nat} {x : Cpu} {m : ModelSpec}
+    (hx : e.cpus[c]? = some x) (hk : e.specs[k]? = some m) (hil : i < m.nch) :
+    (b.chan (e.shape.cpuOut c k i)).cur = cpuViewC (fresh c) e x m i := by
+  have hcl : c < e.shape.nC := (List.getElem?_eq_some_iff.mp hx).1
+  obtain ⟨mi, mx, hm, hsel, hout, hd, _, hview⟩ := emu_cpu_track hc hs hi hx hk hil
+  by_cases hfr : e.shape.isFresh fresh mx
+  · obtain ⟨hdn, c', hcl', hsel', hfc⟩ := hfr
+    have hcc : c' = c := by
+      have := e.shape.idx_inj ((e.shape.mem_run c').mpr hcl') ((e.shape.mem_run c).mpr hcl)
+        (hsel'.symm.trans hsel)
+      cases this; rfl
+    subst hcc
+    have hnull := ((hf mi mx hm).1 ⟨hdn, c', hcl', hsel', hfc⟩).2.1
+    rw [hout] at hnull
+    rw [hnull, cpuViewC, if_pos ⟨hfc, hd ▸ hdn⟩]
+  · rw [hview ((hf mi mx hm).2 hfr), cpuViewC, if_neg]
+    rintro ⟨h1, h2⟩
+    exact hfr ⟨hd ▸ h2, c, hcl, hsel, h1⟩
+
+theorem cpuViewC_flushAll (f : Bool) (e : Emu) (c : Cpu) (m : ModelSpec) (i : Nat) :
+    cpuViewC f e.flushAll { c with chNrun := c.chNrun.flush, chPid := c.chPid.flush, chTid := c.chTid.flush,
+                                   chThrun := c.chThrun.flush, chThact := c.chThact.flush } m i =
+      cpuViewC f e c m i := by
+  unfold cpuViewC; rw [cpuView_flushAll]
+
+/-- A fresh CPU has no running thread: `cpuView` shows the mux default. -/
+theorem fresh_cpuView {e : Emu} {b0 b : Bay} {fresh : Nat → Bool} (hc : e.shape.connect = .ok b0)
+    (hs : Shaped e) (hi : Inv b0 e b) (hf : FreshInv e.shape b fresh) {c k i : Nat} {x : Cpu} {m : ModelSpec}
+    (hx : e.cpus[c]? = some x) (hk : e.specs[k]? = some m) (hil : i < m.nch) (hfc : fresh c = true)
+    (hd : m.cpuDflt i ≠ .null) : cpuView e x m i = m.cpuDflt i := by
+  have hcl : c < e.shape.nC := (List.getElem?_eq_some_iff.mp hx).1
+  obtain ⟨mi, mx, hm, hsel, _, hdf, hch, _⟩ := emu_cpu_track hc hs hi hx hk hil
+  have hnull := ((hf mi mx hm).1 ⟨hdf ▸ hd, c, hcl, hsel, hfc⟩).1
+  rw [hch] at hnull
+  unfold cpuView cpuSelected
+  rw [hnull]; rfl
+
+/-- **emit_step (any simulated step).**  `e → e'` by channel operations the bay
+    can replay (`Sim`: an event's handlers, or the connect-time writes).  From
+    `Inv`, `FreshInv` and `EmitInv`:
+
+    * the bay step of `emu_event` (writes `b → b1`, `bay_propagate` to `bF`, `Inv`
+      again) and `FreshInv` for `freshE fresh e'`;
+    * `bay_propagate` WITH the PRV callbacks (`Bay.propagateP`) fails iff
+      `viewRecordsC e e'` fails — the only error is "forbidden value 0";
+    * otherwise it ends in the same `bF`; its lines `L` (dirty-list order) are a
+      permutation of a list `Lr` (row order of `records`) whose *effective* lines
+      — those that change what their row shows — are exactly `viewRecordsC e e'`;
+      the other lines of `L` repeat the value their row already shows (first
+      emission of a null, `PRV_EMITDUP`, non-null `PRV_SKIPDUPNULL` duplicates);
+    * `EmitInv` holds again with the rows updated by `L`;
+    * `viewRecordsC e e'` succeeds iff `viewRecords e e'` (the model part of
+      `records`) does (⇐ when the mux defaults are legal Paraver values). -/
+theorem emit_step {e e' : Emu} {b0 b : Bay} {fresh : Nat → Bool} {lvs : List (Option Value)} {tvs : List Int}
+    (hc : e.shape.connect = .ok b0) (hs : Shaped e) (hi : Inv b0 e b) (hf : FreshInv e.shape b fresh)
+    (hE : EmitInv e.shape.regs lvs tvs b) (hfl : SpecFlagsOk e.specs) (hsim : Sim e e') :
+    ∃ b1 bF em, Bay.Writes (· < e.shape.L) b b1 ∧ Mirrors e' b1 ∧ b1.propagate = .ok (bF, em) ∧
+      Shaped e'.flushAll ∧ e'.flushAll.shape = e.shape ∧ Inv b0 e'.flushAll bF ∧
+      FreshInv e.shape bF (freshE fresh e') ∧
+      ((∃ x, viewRecordsC e e' fresh (freshE fresh e') = .error x) ↔
+        (∃ y, b1.propagateP e.shape.regs lvs = .error y)) ∧
+      (∀ y, b1.propagateP e.shape.regs lvs = .error y → y = .prvZero) ∧
+      (∀ vr, viewRecordsC e e' fresh (freshE fresh e') = .ok vr →
+        ∃ lvs' L Lr, b1.propagateP e.shape.regs lvs = .ok (bF, lvs', L) ∧ L.Perm Lr ∧
+          vr = (Lr.filter (effective tvs)).map (·.2) ∧ EmitInv e.shape.regs lvs' (tvStep tvs L) bF) ∧
+      (CpuDfltOk e.specs → ∀ v, viewRecords e e' = .ok v →
+        ∃ vr, viewRecordsC e e' fresh (freshE fresh e') = .ok vr) ∧
+      (∀ vr, viewRecordsC e e' fresh (freshE fresh e') = .ok vr → ∃ v, viewRecords e e' = .ok v) := by
+  obtain ⟨hs', hshape', _⟩ := hsim hs
+  obtain ⟨hsF, hshF, b1, bF, em, hwP, hm1, _, hp, hinv⟩ := hi.step hc hs hsim
+  have hw : Bay.Writes (· < e.shape.L) b b1 := hwP.mono (fun _ h => Shape.okP_lt h)
+  have hspecs' : e'.specs = e.specs := congrArg Shape.specs hshape'
+  -- the ghost after the event
+  have hfF : FreshInv e.shape bF (freshE fresh e') := by
+    refine (hf.step hc hi hw hp).congr ?_
+    intro c hcl
+    have hcl' : c < e'.cpus.length := by
+      have : e'.cpus.length = e.cpus.length := congrArg Shape.nC hshape'
+      rw [this]; exact hcl
+    have hx' : e'.cpus[c]? = some e'.cpus[c] := List.getElem?_eq_getElem hcl'
+    have hsrc : e'.src (.run c) = some e'.cpus[c].chThrun := by simp only [Emu.src, hx', Option.map_some]
+    have := Bay.chan_of_getElem? (hm1 _ _ hsrc)
+    rw [hshape'] at this
+    simp only [Shape.freshStep, freshE, this, hx']
+  have hcF : e'.flushAll.shape.connect = .ok b0 := by rw [hshF]; exact hc
+  have hspecsF : e'.flushAll.specs = e.specs := congrArg Shape.specs hshF
+  -- the registered channels before and after
+  have hthO : ∀ (g k i : Nat) (t : Thread) (ms : ModelSpec), e.threads[g]? = some t → e.specs[k]? = some ms →
+      i < ms.nch → (b.chan (e.shape.thOut g k i)).cur = thView t ms i :=
+    fun g k i t ms ht hk hil => emu_thread_rows hc hs hi ht hk hil
+  have hcpO : ∀ (c k i : Nat) (x : Cpu) (ms : ModelSpec), e.cpus[c]? = some x → e.specs[k]? = some ms →
+      i < ms.nch → (b.chan (e.shape.cpuOut c k i)).cur = cpuViewC (fresh c) e x ms i :=
+    fun c k i x ms hx hk hil => emu_cpu_rows_fresh hc hs hi hf hx hk hil
+  have hthN : ∀ (g k i : Nat) (t : Thread) (ms : ModelSpec), e'.threads[g]? = some t → e.specs[k]? = some ms →
+      i < ms.nch → (bF.chan (e.shape.thOut g k i)).cur = thView t ms i := by
+    intro g k i t' ms ht' hk hil
+    have htF : e'.flushAll.threads[g]? = some
+        { t' with chCpu := t'.chCpu.flush, chTid := t'.chTid.flush, chState := t'.chState.flush,
+                  mch := t'.mch.map fun x => (x.1, x.2.map Chan.flush) } := by
+      simp only [Emu.flushAll, List.getElem?_map, ht', Option.map_some]
+    have := emu_thread_rows hcF hsF hinv htF (hspecsF ▸ hk) hil
+    rw [hshF, thView_flush] at this
+    exact this
+  have hcpN : ∀ (c k i : Nat) (x : Cpu) (ms : ModelSpec), e'.cpus[c]? = some x → e.specs[k]? = some ms →
+      i < ms.nch → (bF.chan (e.shape.cpuOut c k i)).cur = cpuViewC (freshE fresh e' c) e' x ms i := by
+    intro cg k i x' ms hx' hk hil
+    have hxF : e'.flushAll.cpus[cg]? = some
+        { x' with chNrun := x'.chNrun.flush, chPid := x'.chPid.flush, chTid := x'.chTid.flush,
+                  chThrun := x'.chThrun.flush, chThact := x'.chThact.flush } := by
+      simp only [Emu.flushAll, List.getElem?_map, hx', Option.map_some]
+    have := emu_cpu_rows_fresh hcF hsF hinv (hshF.symm ▸ hfF) hxF (hspecsF ▸ hk) hil
+    rw [hshF, cpuViewC_flushAll] at this
+    exact this
+  have heq : b.viewRecs e.shape.regs bF = viewRecordsC e e' fresh (freshE fresh e') :=
+    viewRecs_eq_viewRecordsC hs' hshape' hthO hthN hcpO hcpN
+  obtain ⟨h1, h2, h3⟩ := Bay.emit_step hi.wf hw hp hE (Shape.regs_flags hfl)
+  rw [heq] at h1 h3
+  have hfreshO : ∀ x' ∈ e'.cpus, fresh x'.gindex = true → ∀ ms ∈ e'.specs, ∀ (i : Nat), i < ms.nch →
+      ms.cpuDflt i ≠ .null → cpuView e (e.cpus.getD x'.gindex x') ms i = ms.cpuDflt i := by
+    intro x' hx' hfc ms hms i hil hdn
+    obtain ⟨cg, hcg⟩ := List.mem_iff_getElem?.mp hx'
+    have hgi : x'.gindex = cg := hs'.cpuIdx cg x' hcg
+    have hcl : cg < e.cpus.length := by
+      have : e'.cpus.length = e.cpus.length := congrArg Shape.nC hshape'
+      rw [← this]; exact (List.getElem?_eq_some_iff.mp hcg).1
+    have hx : e.cpus[cg]? = some e.cpus[cg] := List.getElem?_eq_getElem hcl
+    have hxo : e.cpus.getD x'.gindex x' = e.cpus[cg] := by
+      rw [hgi]; simp [List.getD_eq_getElem?_getD, List.getElem?_eq_getElem hcl]
+    rw [hspecs'] at hms
+    obtain ⟨k, hk⟩ := List.mem_iff_getElem?.mp hms
+    rw [hxo]
+    exact fresh_cpuView hc hs hi hf hx hk hil (hgi ▸ hfc) hdn
+  have hfreshN : ∀ x' ∈ e'.cpus, freshE fresh e' x'.gindex = true → ∀ ms ∈ e'.specs, ∀ (i : Nat), i < ms.nch →
+      ms.cpuDflt i ≠ .null → cpuView e' x' ms i = ms.cpuDflt i := by
+    intro x' hx' hfc ms hms i hil hdn
+    obtain ⟨cg, hcg⟩ := List.mem_iff_getElem?.mp hx'
+    have hgi : x'.gindex = cg := hs'.cpuIdx cg x' hcg
+    have hxF : e'.flushAll.cpus[cg]? = some
+        { x' with chNrun := x'.chNrun.flush, chPid := x'.chPid.flush, chTid := x'.chTid.flush,
+                  chThrun := x'.chThrun.flush, chThact := x'.chThact.flush } := by
+      simp only [Emu.flushAll, List.getElem?_map, hcg, Option.map_some]
+    rw [hspecs'] at hms
+    obtain ⟨k, hk⟩ := List.mem_iff_getElem?.mp hms
+    have := fresh_cpuView hcF hsF hinv (hshF.symm ▸ hfF) hxF (hspecsF ▸ hk) hil (hgi ▸ hfc) hdn
+    rw [cpuView_flushAll] at this
+    exact this
+  refine ⟨b1, bF, em, hw, hm1, hp, hsF, hshF, hinv, hfF, h1, h2, h3, ?_, ?_⟩
+  · intro hd v hv
+    exact viewRecordsC_ok hfreshO (hspecs' ▸ hd) hv
+  · intro vr hvr
+    refine viewRecords_ok_of_C ?_ hfreshO hfreshN hvr
+    intro c hfc
+    unfold freshE at hfc
+    simp only [Bool.and_eq_true] at hfc
+    exact hfc.1
+
+/-- **emu_event with the emit phase** (`emit_step` for the handlers of one
+    accepted event).  `emu_event` gives the values of all rows after the event;
+    this adds what `bay_propagate`'s emit callbacks write. -/
+theorem emu_event_emit {e e' : Emu} {b0 b : Bay} {ti mc c v : Nat} {p : List Nat}
+    {th mh : Emu → Nat → Nat → Nat → List Nat → Except Err Emu} (hth : HookSim th) (hmh : HookSim mh)
+    {fresh : Nat → Bool} {lvs : List (Option Value)} {tvs : List Int}
+    (hc : e.shape.connect = .ok b0) (hs : Shaped e) (hi : Inv b0 e b) (hf : FreshInv e.shape b fresh)
+    (hE : EmitInv e.shape.regs lvs tvs b) (hfl : SpecFlagsOk e.specs)
+    (h : modelEvent e ti mc c v p th mh = .ok e') :
+    ∃ b1 bF em, Bay.Writes (· < e.shape.L) b b1 ∧ Mirrors e' b1 ∧ b1.propagate = .ok (bF, em) ∧
+      Shaped e'.flushAll ∧ e'.flushAll.shape = e.shape ∧ Inv b0 e'.flushAll bF ∧
+      FreshInv e.shape bF (freshE fresh e') ∧
+      ((∃ x, viewRecordsC e e' fresh (freshE fresh e') = .error x) ↔
+        (∃ y, b1.propagateP e.shape.regs lvs = .error y)) ∧
+      (∀ y, b1.propagateP e.shape.regs lvs = .error y → y = .prvZero) ∧
+      (∀ vr, viewRecordsC e e' fresh (freshE fresh e') = .ok vr →
+        ∃ lvs' L Lr, b1.propagateP e.shape.regs lvs = .ok (bF, lvs', L) ∧ L.Perm Lr ∧
+          vr = (Lr.filter (effective tvs)).map (·.2) ∧ EmitInv e.shape.regs lvs' (tvStep tvs L) bF) ∧
+      (CpuDfltOk e.specs → ∀ v, viewRecords e e' = .ok v →
+        ∃ vr, viewRecordsC e e' fresh (freshE fresh e') = .ok vr) ∧
+      (∀ vr, viewRecordsC e e' fresh (freshE fresh e') = .ok vr → ∃ v, viewRecords e e' = .ok v) :=
+  emit_step hc hs hi hf hE hfl (Sim.modelEvent hth hmh h)
+
+/-- **records vs the emit phase, failure.**  For the handlers of an accepted
+    event (`modelEvent = ok e'`): `records e e'` fails — always with "forbidden
+    value 0" — exactly when a system row fails (`sysRecords`, emitted from the
+    emulator's own channels) or `bay_propagate`'s emit phase fails. -/
+theorem emu_event_fail_iff {e e' : Emu} {b0 b : Bay} {ti mc c v : Nat} {p : List Nat}
+    {th mh : Emu → Nat → Nat → Nat → List Nat → Except Err Emu} (hth : HookSim th) (hmh : HookSim mh)
+    {fresh : Nat → Bool} {lvs : List (Option Value)} {tvs : List Int}
+    (hc : e.shape.connect = .ok b0) (hs : Shaped e) (hi : Inv b0 e b) (hf : FreshInv e.shape b fresh)
+    (hE : EmitInv e.shape.regs lvs tvs b) (hfl : SpecFlagsOk e.specs) (hd : CpuDfltOk e.specs)
+    (h : modelEvent e ti mc c v p th mh = .ok e') :
+    ∃ b1, Bay.Writes (· < e.shape.L) b b1 ∧ Mirrors e' b1 ∧
+      ((∃ x, records e e' = .error x) ↔
+        ((∃ x, sysRecords e' = .error x) ∨ (∃ y, b1.propagateP e.shape.regs lvs = .error y))) ∧
+      (∀ x, records e e' = .error x → x = .prvZero) ∧
+      (∀ y, b1.propagateP e.shape.regs lvs = .error y → y = .prvZero) := by
+  obtain ⟨b1, _, _, hw, hm1, _, _, _, _, _, h1, h2, _, h4, h5⟩ := emu_event_emit hth hmh hc hs hi hf hE hfl h
+  refine ⟨b1, hw, hm1, ?_, fun x hx => records_error_prvZero hx, h2⟩
+  rw [(records_split e e').2.2, ← h1]
+  have : (∃ x, viewRecords e e' = .error x) ↔ (∃ x, viewRecordsC e e' fresh (freshE fresh e') = .error x) := by
+    rw [except_error_iff_not_ok, except_error_iff_not_ok]
+    constructor
+    · rintro hn ⟨vr, hvr⟩; exact hn (h5 vr hvr)
+    · rintro hn ⟨v, hv⟩; exact hn (h4 hd v hv)
+  rw [this]
+
+/-- **records vs the emit phase, one accepted step** (`stepEv = ok (e2, rs)`:
+    handlers, `records`, flush).  The bay step with the PRV callbacks succeeds;
+    its lines `L` are a permutation of a list `Lr` in row order; the effective
+    lines of `Lr` are `viewRecordsC e e1`; and `rs`, the records of the step, are
+    — when no CPU of the hierarchy is fresh any more, e.g. once every CPU has run
+    a thread — a permutation of the system-row records followed by those
+    effective lines.  (With fresh CPUs the two differ only on their CPU rows
+    with a mux default: see `cpuViewC`.) -/
+theorem emu_step_records {e e2 : Emu} {b0 b : Bay} {ti mc c v : Nat} {p : List Nat} {rs : List PrvRec}
+    {th mh : Emu → Nat → Nat → Nat → List Nat → Except Err Emu} (hth : HookSim th) (hmh : HookSim mh)
+    {fresh : Nat → Bool} {lvs : List (Option Value)} {tvs : List Int}
+    (hc : e.shape.connect = .ok b0) (hs : Shaped e) (hi : Inv b0 e b) (hf : FreshInv e.shape b fresh)
+    (hE : EmitInv e.shape.regs lvs tvs b) (hfl : SpecFlagsOk e.specs) (hd : CpuDfltOk e.specs)
+    (h : stepEv e ti mc c v p th mh = .ok (e2, rs)) :
+    ∃ e1 b1 bF lvs' L Lr s vr, modelEvent e ti mc c v p th mh = .ok e1 ∧ e2 = e1.flushAll ∧
+      Bay.Writes (· < e.shape.L) b b1 ∧ b1.propagateP e.shape.regs lvs = .ok (bF, lvs', L) ∧
+      Inv b0 e2 bF ∧ FreshInv e.shape bF (freshE fresh e1) ∧ EmitInv e.shape.regs lvs' (tvStep tvs L) bF ∧
+      sysRecords e1 = .ok s ∧ viewRecordsC e e1 fresh (freshE fresh e1) = .ok vr ∧
+      L.Perm Lr ∧ vr = (Lr.filter (effective tvs)).map (·.2) ∧
+      ((∀ cg, cg < e.cpus.length → fresh cg = false) → rs.Perm (s ++ vr)) := by
+  obtain ⟨e1, hme, hrec, rfl⟩ := stepEv_ok h
+  obtain ⟨s, v, hsys, hv, hperm⟩ := (records_split e e1).1 _ hrec
+  obtain ⟨b1, bF, _, hw, _, _, _, _, hinv, hfF, _, _, h3, h4, _⟩ := emu_event_emit hth hmh hc hs hi hf hE hfl hme
+  obtain ⟨vr, hvr⟩ := h4 hd v hv
+  obtain ⟨lvs', L, Lr, hpp, hLr, hvrL, hE'⟩ := h3 vr hvr
+  refine ⟨e1, b1, bF, lvs', L, Lr, s, vr, hme, rfl, hw, hpp, hinv, hfF, hE', hsys, hvr, hLr, hvrL, ?_⟩
+  intro hnf
+  obtain ⟨hs1, hsh1, _⟩ := (Sim.modelEvent hth hmh hme) hs
+  have hlen : e1.cpus.length = e.cpus.length := congrArg Shape.nC hsh1
+  have : viewRecordsC e e1 fresh (freshE fresh e1) = viewRecords e e1 := by
+    apply viewRecordsC_of_settled hs1
+    · intro cg hcg; exact hnf cg (hlen ▸ hcg)
+    · intro cg hcg; unfold freshE; rw [hnf cg (hlen ▸ hcg)]; rfl
+  rw [this, hv] at hvr
+  injection hvr with hvr
+  rw [← hvr]; exact hperm
+
+/-- **emu_init with the emit phase.**  `emu_connect` for `mkEmu …`: connect,
+    the PRV registrations (`Shape.regs`, no `last_value` set, every row shows
+    0), the connect-time `chan_set`s, and the first `bay_propagate` — with the
+    PRV callbacks: it does not fail when the connect-time values are legal
+    Paraver values (`InitPrvOk`), and establishes `Inv`, `FreshInv` (every CPU
+    fresh) and `EmitInv`. -/
+theorem emu_init_emit (threads : List (Int × Int × Nat)) (cpus : List (Nat × Int × Bool)) (enabled : List Nat)
+    (lint : Bool) (extra : List ModelSpec) {b0 : Bay}
+    (hc : (mkEmu threads cpus enabled lint extra).shape.connect = .ok b0)
+    (hnt : 0 < threads.length)
+    (hchars : ((allSpecs.filter (fun s => enabled.contains s.char) ++ extra).map (·.char)).Nodup)
+    (hinit : InitSingle (allSpecs.filter (fun s => enabled.contains s.char) ++ extra))
+    (hfl : SpecFlagsOk (allSpecs.filter (fun s => enabled.contains s.char) ++ extra))
+    (hiv : InitPrvOk (allSpecs.filter (fun s => enabled.contains s.char) ++ extra)) :
+    Shaped (mkEmu threads cpus enabled lint extra) ∧
+    ∃ b1 bI lvs tvs L, Bay.Writes (· < (mkEmu threads cpus enabled lint extra).shape.L) b0 b1 ∧
+      b1.propagateP (mkEmu threads cpus enabled lint extra).shape.regs
+        (List.replicate (mkEmu threads cpus enabled lint extra).shape.regs.length none) = .ok (bI, lvs, L) ∧
+      Inv b0 (mkEmu threads cpus enabled lint extra) bI ∧
+      FreshInv (mkEmu threads cpus enabled lint extra).shape bI (fun _ => true) ∧
+      EmitInv (mkEmu threads cpus enabled lint extra).shape.regs lvs tvs bI := by
+  have hshape : (mkEmuWith ModelSpec.protoChans threads cpus enabled lint extra).shape =
+      (mkEmu threads cpus enabled lint extra).shape := by
+    rw [mkEmu_eq, mkEmuWith_shape, mkEmuWith_shape]
+  rw [← hshape] at hc ⊢
+  obtain ⟨hs0, hi0⟩ := Inv.pre_init threads cpus enabled lint extra hc hnt hchars
+  have hb := Shape.connect_built hc
+  obtain ⟨b1, bF, em, hw, _, _, hsF, _, hinv, hfF, _, _, h3, _, _⟩ :=
+    emit_step hc hs0 hi0 (FreshInv.connected hc rfl) (EmitInv.ofNull _ hb.topo.allNull) hfl
+      (sim_init threads cpus enabled lint extra hinit)
+  have hfr : freshE (fun _ => true) (mkEmuWith ModelSpec.dirtyChans threads cpus enabled lint extra) =
+      fun _ => true := by
+    funext c
+    unfold freshE
+    cases hx : (mkEmuWith ModelSpec.dirtyChans threads cpus enabled lint extra).cpus[c]? with
+    | none => rfl
+    | some x => simp only [mkEmuWith_cpu hx]; rfl
+  rw [hfr] at h3 hfF
+  obtain ⟨vr, hvr⟩ := init_rows_ok threads cpus enabled lint extra
+    (mkEmuWith ModelSpec.protoChans threads cpus enabled lint extra) (fun _ => true) hiv hchars
+  obtain ⟨lvs', L, _, hpp, _, _, hE⟩ := h3 vr hvr
+  rw [mkEmuWith_flushAll] at hsF hinv
+  exact ⟨hsF, b1, bF, lvs', _, L, hw, hpp, hinv, hfF, hE⟩
+
+/-- The bay side of a history, with the PRV callbacks: per event, the writes
+    of the handlers, then `bay_propagate` including its emit phase, which
+    succeeded and wrote the lines `L`. -/
+inductive RoundsP (regs : List PrvReg) (ok : Nat → Prop) :
+    Bay × List (Option Value) → List (List (Nat × PrvRec)) → Bay × List (Option Value) → Prop
+  | nil (s : Bay × List (Option Value)) : RoundsP regs ok s [] s
+  | cons {b b1 b2 : Bay} {lvs lvs' : List (Option Value)} {L : List (Nat × PrvRec)}
+      {rest : List (List (Nat × PrvRec))} {sF : Bay × List (Option Value)} :
+      Bay.Writes ok b b1 → b1.propagateP regs lvs = .ok (b2, lvs', L) → RoundsP regs ok (b2, lvs') rest sF →
+      RoundsP regs ok (b, lvs) (L :: rest) sF
+
+/-- **emu_history with the emit phase.**  For ANY list of events accepted by the
+    reference emulator (`replay`: handlers, `records`, flush), the bay reached by
+    replaying the handlers' writes and running `bay_propagate` WITH the PRV
+    callbacks after each event exists: the emit phase never fails on an accepted
+    history (`records` already refused every forbidden 0), and `Inv`, `FreshInv`
+    and `EmitInv` hold at the end — so `emu_event_emit` applies at every
+    instant: event by event the effective lines are `viewRecordsC`. -/
+theorem emu_history_emit {th mh : Emu → Nat → Nat → Nat → List Nat → Except Err Emu} (hth : HookSim th)
+    (hmh : HookSim mh) (evs : List Ev) : ∀ {e eF : Emu} {b0 b : Bay} {rs : List PrvRec} {fresh : Nat → Bool}
+      {lvs : List (Option Value)} {tvs : List Int},
+    e.shape.connect = .ok b0 → Shaped e → Inv b0 e b → FreshInv e.shape b fresh →
+    EmitInv e.shape.regs lvs tvs b → SpecFlagsOk e.specs → CpuDfltOk e.specs →
+    replay th mh e evs = .ok (eF, rs) →
+    ∃ bF lvsF freshF Ls, RoundsP e.shape.regs (· < e.shape.L) (b, lvs) Ls (bF, lvsF) ∧ Ls.length = evs.length ∧
+      Shaped eF ∧ eF.shape = e.shape ∧ Inv b0 eF bF ∧ FreshInv e.shape bF freshF ∧
+      EmitInv e.shape.regs lvsF (Ls.foldl tvStep tvs) bF := by
+  induction evs with
+  | nil =>
+    intro e eF b0 b rs fresh lvs tvs hc hs hi hf hE _ _ h
+    injection h with h; injection h with h1 _
+    subst h1
+    exact ⟨b, lvs, fresh, [], .nil _, rfl, hs, rfl, hi, hf, hE⟩
+  | cons ev evs ih =>
+    intro e eF b0 b rs fresh lvs tvs hc hs hi hf hE hfl hd h
+    rw [replay] at h
+    split at h
+    · cases h
+    · rename_i e2 rs1 hstep
+      split at h
+      · cases h
+      · rename_i eF' rs2 hrest
+        injection h with h; injection h with h1 _
+        subst h1
+        obtain ⟨e1, hme, hrec, rfl⟩ := stepEv_ok hstep
+        obtain ⟨_, v, _, hv, _⟩ := (records_split e e1).1 _ hrec
+        obtain ⟨b1, b2, em, hw, _, _, hs1, hsh1, hi1, hf1, _, _, h3, h4, _⟩ :=
+          emu_event_emit hth hmh hc hs hi hf hE hfl hme
+        obtain ⟨vr, hvr⟩ := h4 hd v hv
+        obtain ⟨lvs', L, _, hpp, _, _, hE1⟩ := h3 vr hvr
+        have hspecs1 : e1.flushAll.specs = e.specs := congrArg Shape.specs hsh1
+        obtain ⟨bF, lvsF, freshF, Ls, hr, hlen, hsF, hshF, hiF, hfF, hEF⟩ :=
+          ih (hsh1.symm ▸ hc) hs1 hi1 (hsh1.symm ▸ hf1) (hsh1.symm ▸ hE1) (hspecs1.symm ▸ hfl)
+            (hspecs1.symm ▸ hd) hrest
+        rw [hsh1] at hr hfF hEF
+        exact ⟨bF, lvsF, freshF, L :: Ls, .cons hw hpp hr, by simp [hlen], hsF, hshF.trans hsh1, hiF, hfF, hEF⟩
+
+/-- **emu_run with the emit phase**: from `emu_connect` on. -/
+theorem emu_run_emit {th mh : Emu → Nat → Nat → Nat → List Nat → Except Err Emu} (hth : HookSim th)
+    (hmh : HookSim mh) (threads : List (Int × Int × Nat)) (cpus : List (Nat × Int × Bool))
+    (enabled : List Nat) (lint : Bool) (extra : List ModelSpec) {b0 : Bay} (evs : List Ev) {eF : Emu}
+    {rs : List PrvRec}
+    (hc : (mkEmu threads cpus enabled lint extra).shape.connect = .ok b0)
+    (hnt : 0 < threads.length)
+    (hchars : ((allSpecs.filter (fun s => enabled.contains s.char) ++ extra).map (·.char)).Nodup)
+    (hinit : InitSingle (allSpecs.filter (fun s => enabled.contains s.char) ++ extra))
+    (hfl : SpecFlagsOk (allSpecs.filter (fun s => enabled.contains s.char) ++ extra))
+    (hiv : InitPrvOk (allSpecs.filter (fun s => enabled.contains s.char) ++ extra))
+    (hd : CpuDfltOk (allSpecs.filter (fun s => enabled.contains s.char) ++ extra))
+    (h : replay th mh (mkEmu threads cpus enabled lint extra) evs = .ok (eF, rs)) :
+    ∃ b1 bI lvsI L0 bF lvsF tvsF freshF Ls,
+      Bay.Writes (· < (mkEmu threads cpus enabled lint extra).shape.L) b0 b1 ∧
+      b1.propagateP (mkEmu threads cpus enabled lint extra).shape.regs
+        (List.replicate (mkEmu threads cpus enabled lint extra).shape.regs.length none) = .ok (bI, lvsI, L0) ∧
+      RoundsP (mkEmu threads cpus enabled lint extra).shape.regs
+        (· < (mkEmu threads cpus enabled lint extra).shape.L) (bI, lvsI) Ls (bF, lvsF) ∧
+      Ls.length = evs.length ∧ Shaped eF ∧ Inv b0 eF bF ∧
+      FreshInv (mkEmu threads cpus enabled lint extra).shape bF freshF ∧
+      EmitInv (mkEmu threads cpus enabled lint extra).shape.regs lvsF tvsF bF := by
+  obtain ⟨hs, b1, bI, lvsI, tvsI, L0, hw, hpp, hi, hf, hE⟩ :=
+    emu_init_emit threads cpus enabled lint extra hc hnt hchars hinit hfl hiv
+  obtain ⟨bF, lvsF, freshF, Ls, hr, hlen, hsF, _, hiF, hfF, hEF⟩ :=
+    emu_history_emit hth hmh evs hc hs hi hf hE hfl hd h
+  exact ⟨b1, bI, lvsI, L0, bF, lvsF, _, freshF, Ls, hw, hpp, hr, hlen, hsF, hiF, hfF, hEF⟩
+
+/-! ### The generated specs satisfy the side conditions of the emit theorems -/
+
+/-- Every channel of every model has a duplicate policy (`PRV_EMITDUP`,
+    `PRV_SKIPDUP` or `PRV_SKIPDUPNULL`: a duplicate is never an error) and no
+    `PRV_ZERO`. -/
+theorem generated_prv_flags :
+    ∀ s ∈ allSpecs, ∀ i ∈ List.range s.nch, DupOk (s.prvFlags.getD i 0) ∧ NoZero (s.prvFlags.getD i 0) := by
+  decide
+
+/-- The connect-time values and the CPU mux defaults are legal Paraver values. -/
+theorem generated_prv_values :
+    ∀ s ∈ allSpecs, ∀ i ∈ List.range s.nch,
+      prvOkB (s.prvFlags.getD i 0) ((s.freshChans.getD i {}).cur) = true ∧
+      prvOkB (s.prvFlags.getD i 0) (s.cpuDflt i) = true := by
+  decide
+
+/-- The side conditions of `emu_init_emit` / `emu_history_emit` hold for the
+    generated specs of any enabled set of models plus any mark table. -/
+theorem driver_emit_conditions (enabled : List Nat) (tab : List MarkType) :
+    let specs := allSpecs.filter (fun s => enabled.contains s.char) ++ markExtra tab
+    SpecFlagsOk specs ∧ InitPrvOk specs ∧ CpuDfltOk specs := by
+  intro specs
+  have hmem : ∀ m ∈ specs, m ∈ allSpecs ∨ (m = markSpec tab) := by
+    intro m hm
+    rcases List.mem_append.mp hm with h | h
+    · exact Or.inl (List.mem_filter.mp h).1
+    · right
+      unfold markExtra at h
+      split at h
+      · cases h
+      · simpa using h
+  have hmark : ∀ i, i < (markSpec tab).nch → (markSpec tab).prvFlags.getD i 0 = prvSkipDupNull := by
+    intro i hi
+    have hi' : i < tab.length := hi
+    simp [markSpec, List.getD_eq_getElem?_getD, List.getElem?_map, List.getElem?_eq_getElem hi']
+  have hmd : ∀ i, (markSpec tab).cpuDflt i = .null := by intro i; rfl
+  have hmf : ∀ i, ((markSpec tab).freshChans.getD i {}).cur = .null := by
+    intro i
+    simp only [ModelSpec.freshChans, markSpec, List.find?_nil, List.getD_eq_getElem?_getD, List.getElem?_map]
+    cases (List.range tab.length)[i]? <;> rfl
+  refine ⟨?_, ?_, ?_⟩
+  · intro m hm i hi
+    rcases hmem m hm with h | rfl
+    · exact generated_prv_flags m h i (List.mem_range.mpr hi)
+    · rw [hmark i hi]; decide
+  · intro m hm i hi
+    rcases hmem m hm with h | rfl
+    · exact prvOkB_ok (generated_prv_values m h i (List.mem_range.mpr hi)).1
+    · rw [hmf]; exact ⟨0, rfl⟩
+  · intro m hm i hi
+    rcases hmem m hm with h | rfl
+    · exact prvOkB_ok (generated_prv_values m h i (List.mem_range.mpr hi)).2
+    · rw [hmd]; exact ⟨0, rfl⟩
+
+/-- **emu_run with the emit phase, for the emulator as it is run**
+    (`Drivers/Emu.lean`: any hierarchy with at least one thread, any enabled
+    models, any mark table; hooks `noHook`, `markEvent`).  No other hypothesis:
+    `emu_connect`'s first `bay_propagate` and the one after every accepted event
+    succeed INCLUDING their PRV callbacks, and `Inv`, `FreshInv`, `EmitInv` hold
+    at the end. -/
+theorem emu_run_emit_driver (threads : List (Int × Int × Nat)) (cpus : List (Nat × Int × Bool))
+    (enabled : List Nat) (lint : Bool) (tab : List MarkType) (evs : List Ev) {eF : Emu} {rs : List PrvRec}
+    (hnt : 0 < threads.length)
+    (h : replay (fun _ _ _ _ _ => .error .unknownEvent) (fun e ti _ v p => markEvent tab e ti v p)
+      (mkEmu threads cpus enabled lint (markExtra tab)) evs = .ok (eF, rs)) :
+    ∃ b0 b1 bI lvsI L0 bF lvsF tvsF freshF Ls,
+      (mkEmu threads cpus enabled lint (markExtra tab)).shape.connect = .ok b0 ∧
+      Bay.Writes (· < (mkEmu threads cpus enabled lint (markExtra tab)).shape.L) b0 b1 ∧
+      b1.propagateP (mkEmu threads cpus enabled lint (markExtra tab)).shape.regs
+        (List.replicate (mkEmu threads cpus enabled lint (markExtra tab)).shape.regs.length none) =
+          .ok (bI, lvsI, L0) ∧
+      RoundsP (mkEmu threads cpus enabled lint (markExtra tab)).shape.regs
+        (· < (mkEmu threads cpus enabled lint (markExtra tab)).shape.L) (bI, lvsI) Ls (bF, lvsF) ∧
+      Ls.length = evs.length ∧ Shaped eF ∧ Inv b0 eF bF ∧
+      FreshInv (mkEmu threads cpus enabled lint (markExtra tab)).shape bF freshF ∧
+      EmitInv (mkEmu threads cpus enabled lint (markExtra tab)).shape.regs lvsF tvsF bF := by
+  obtain ⟨hmo, hchars, hinit⟩ := driver_side_conditions enabled tab
+  obtain ⟨hfl, hiv, hd⟩ := driver_emit_conditions enabled tab
+  have hc := bayOf_connects (e := mkEmu threads cpus enabled lint (markExtra tab)) hmo
+  obtain ⟨b1, bI, lvsI, L0, bF, lvsF, tvsF, freshF, Ls, h1, h2, h3, h4, h5, h6, h7, h8⟩ :=
+    emu_run_emit hookSim_none (hookSim_mark tab) threads cpus enabled lint (markExtra tab) evs hc hnt hchars
+      hinit hfl hiv hd h
+  exact ⟨_, b1, bI, lvsI, L0, bF, lvsF, tvsF, freshF, Ls, hc, h1, h2, h3, h4, h5, h6, h7, h8⟩
+
+/-! ### The task layer of nOS-V / Nanos6: no hook hypothesis
+
+`Emu/TaskHook.lean`: `taskHook m P ε ev` = the task / body rules of
+`Emu/Task.lean` (`Ovni.Task.Emu.step`, state `ε` of the thread's process, decoded
+event `ev`) followed by the channel operations `update_task` performs on the
+thread's raw channels, in the order of the C code: subsystem push / pop, then
+`chan_set` of body id, task id, type, app id, rank (Nanos6: task id, type,
+rank).  `modelEvent` passes a hook the category but not the event value, and
+`Emu` has no field for the task state, so the hook is built per event. -/
+
+/-- The task hook satisfies the hook hypothesis: it performs nothing but channel
+    operations on raw channels of the event's thread (`taskHook_simP`: only its
+    task channels). -/
+theorem hooks_in_use_task (m : Ovni.Task.Model) (P : Ovni.Task.ProcInfo) (ε : Ovni.Task.Emu)
+    (ev : Ovni.Task.Ev) : HookSim (taskHook m P ε ev) :=
+  hookSim_task m P ε ev
+
+/-- **emu_event for the models as they run**, task events included: task hook
+    and mark hook as in nOS-V / Nanos6 / ovni — no hook hypothesis. -/
+theorem emu_event_task {e e' : Emu} {b0 b : Bay} {ti mc c v : Nat} {p : List Nat}
+    (tm : Ovni.Task.Model) (P : Ovni.Task.ProcInfo) (ε : Ovni.Task.Emu) (tev : Ovni.Task.Ev) (tab : List MarkType)
+    (hc : e.shape.connect = .ok b0) (hs : Shaped e) (hi : Inv b0 e b)
+    (h : modelEvent e ti mc c v p (taskHook tm P ε tev) (fun e ti _ v p => markEvent tab e ti v p) = .ok e') :
+    ∃ b1 bF em, Bay.Writes (· < e.shape.L) b b1 ∧ Mirrors e' b1 ∧ b1.propagate = .ok (bF, em) ∧
+      Shaped e'.flushAll ∧ e'.flushAll.shape = e.shape ∧ Inv b0 e'.flushAll bF ∧
+      (∀ (g k i : Nat) (t' : Thread) (ms : ModelSpec), e'.threads[g]? = some t' →
+        e.specs[k]? = some ms → i < ms.nch →
+        (bF.chan (e.shape.thOut g k i)).cur = thView t' ms i) ∧
+      (∀ (cg k i : Nat) (x' : Cpu) (ms : ModelSpec), e'.cpus[cg]? = some x' →
+        e.specs[k]? = some ms → i < ms.nch →
+        (bF.chan (e.shape.cpuOut cg k i)).cur = cpuView e' x' ms i ∨
+        (x'.chThrun.cur = .null ∧ (bF.chan (e.shape.cpuOut cg k i)).cur = .null ∧ ms.cpuDflt i ≠ .null)) :=
+  emu_event (hookSim_task tm P ε tev) (hookSim_mark tab) hc hs hi h
+
+/-- One event of a history with the task layer: the raw event and, for a task
+    event, its decoded form (`none`: not a task event; the hook is then `noHook`). -/
+abbrev EvT := Ev × Option Ovni.Task.Ev
+
+/-- the task hook of an event (`noHook` when it is not a task event) -/
+def hookOf (tm : Ovni.Task.Model) (P : Ovni.Task.ProcInfo) (ε : Ovni.Task.Emu) :
+    Option Ovni.Task.Ev → Emu → Nat → Nat → Nat → List Nat → Except Err Emu
+  | some x => taskHook tm P ε x
+  | none => fun _ _ _ _ _ => .error .unknownEvent
+
+/-- the task state after an event -/
+def advanceT (tm : Ovni.Task.Model) (P : Ovni.Task.ProcInfo) (ε : Ovni.Task.Emu) : Option Ovni.Task.Ev → Ovni.Task.Emu
+  | some x => (match Ovni.Task.Emu.step tm P ε x with | .ok ε' => ε' | .error _ => ε)
+  | none => ε
+
+theorem hookSim_hookOf (tm : Ovni.Task.Model) (P : Ovni.Task.ProcInfo) (ε : Ovni.Task.Emu)
+    (tev : Option Ovni.Task.Ev) : HookSim (hookOf tm P ε tev) := by
+  cases tev with
+  | some x => exact hookSim_task tm P ε x
+  | none => exact hookSim_none
+
+/-- The reference emulator with the task layer of one process (model `tm`,
+    process info `P`) on a list of events: per event `stepEv` with the task hook
+    built from the current task state, which is then advanced by
+    `Ovni.Task.Emu.step`. -/
+def replayT (tm : Ovni.Task.Model) (P : Ovni.Task.ProcInfo) (tab : List MarkType) :
+    Emu → Ovni.Task.Emu → List EvT → Except Err (Emu × Ovni.Task.Emu × List PrvRec)
+  | e, ε, [] => .ok (e, ε, [])
+  | e, ε, evt :: evs =>
+    match stepEv e evt.1.1 evt.1.2.1 evt.1.2.2.1 evt.1.2.2.2.1 evt.1.2.2.2.2 (hookOf tm P ε evt.2)
+        (fun e ti _ v p => markEvent tab e ti v p) with
+    | .error x => .error x
+    | .ok (e1, rs) =>
+      match replayT tm P tab e1 (advanceT tm P ε evt.2) evs with
+      | .error x => .error x
+      | .ok (eF, εF, rs') => .ok (eF, εF, rs ++ rs')
+
+/-- **emu_history with the task layer and the emit phase**: for ANY history
+    accepted by the reference emulator running the task hook (nOS-V or Nanos6
+    task events included) and the mark hook, the bay run with the PRV callbacks
+    exists, and `Inv`, `FreshInv`, `EmitInv` hold at the end.  No hook
+    hypothesis. -/
+theorem emu_history_task (tm : Ovni.Task.Model) (P : Ovni.Task.ProcInfo) (tab : List MarkType) (evs : List EvT) :
+    ∀ {e eF : Emu} {ε εF : Ovni.Task.Emu} {b0 b : Bay} {rs : List PrvRec} {fresh : Nat → Bool}
+      {lvs : List (Option Value)} {tvs : List Int},
+    e.shape.connect = .ok b0 → Shaped e → Inv b0 e b → FreshInv e.shape b fresh →
+    EmitInv e.shape.regs lvs tvs b → SpecFlagsOk e.specs → CpuDfltOk e.specs →
+    replayT tm P tab e ε evs = .ok (eF, εF, rs) →
+    ∃ bF lvsF freshF Ls, RoundsP e.shape.regs (· < e.shape.L) (b, lvs) Ls (bF, lvsF) ∧ Ls.length = evs.length ∧
+      Shaped eF ∧ eF.shape = e.shape ∧ Inv b0 eF bF ∧ FreshInv e.shape bF freshF ∧
+      EmitInv e.shape.regs lvsF (Ls.foldl tvStep tvs) bF := by
+  induction evs with
+  | nil =>
+    intro e eF ε εF b0 b rs fresh lvs tvs hc hs hi hf hE _ _ h
+    injection h with h; injection h with h1 _
+    subst h1
+    exact ⟨b, lvs, fresh, [], .nil _, rfl, hs, rfl, hi, hf, hE⟩
+  | cons ev evs ih =>
+    intro e eF ε εF b0 b rs fresh lvs tvs hc hs hi hf hE hfl hd h
+    rw [replayT] at h
+    split at h
+    · cases h
+    · rename_i e2 rs1 hstep
+      split at h
+      · cases h
+      · rename_i eF' εF' rs2 hrest
+        injection h with h; injection h with h1 _
+        subst h1
+        obtain ⟨e1, hme, hrec, rfl⟩ := stepEv_ok hstep
+        obtain ⟨_, v, _, hv, _⟩ := (records_split e e1).1 _ hrec
+        obtain ⟨b1, b2, em, hw, _, _, hs1, hsh1, hi1, hf1, _, _, h3, h4, _⟩ :=
+          emu_event_emit (hookSim_hookOf tm P ε ev.2) (hookSim_mark tab) hc hs hi hf hE hfl hme
+        obtain ⟨vr, hvr⟩ := h4 hd v hv
+        obtain ⟨lvs', L, _, hpp, _, _, hE1⟩ := h3 vr hvr
+        have hspecs1 : e1.flushAll.specs = e.specs := congrArg Shape.specs hsh1
+        obtain ⟨bF, lvsF, freshF, Ls, hr, hlen, hsF, hshF, hiF, hfF, hEF⟩ :=
+          ih (hsh1.symm ▸ hc) hs1 hi1 (hsh1.symm ▸ hf1) (hsh1.symm ▸ hE1) (hspecs1.symm ▸ hfl)
+            (hspecs1.symm ▸ hd) hrest
+        rw [hsh1] at hr hfF hEF
+        exact ⟨bF, lvsF, freshF, L :: Ls, .cons hw hpp hr, by simp [hlen], hsF, hshF.trans hsh1, hiF, hfF, hEF⟩
+
+/-! ### The system rows
+
+The thread's `cpu` / `tid` / state channels and the CPU's `pid` / `tid` /
+`nrunning` channels are registered with prv by `thread_connect` /
+`cpu_connect`; the reference emulator keeps them in its `Thread` / `Cpu` records
+(`Emu/Core.lean`), and their emit callback is `emitOne` on the record's channel
+(`sysEmit`, `Emu/Emit.lean`).  `SysInv e tl cl`: the `last_value`s `tl` / `cl`
+(a triple per thread / CPU) are consistent with the flushed system channels of
+`e`.  `HookSys`: a hook leaves the system channels alone (true of the hooks in
+use: `hookSys_none`, `hookSys_mark`, `hookSys_task`). -/
+
+/-- **The system rows of one event.**  For the handlers of an accepted event
+    the emit callbacks of the system channels fail iff `sysRecords e'` fails and
+    otherwise write EXACTLY `sysRecords e'` — no redundant line: a system channel
+    is dirty only with a value different from the last one emitted, so `emit`
+    never meets a duplicate there (its "duplicated value" error cannot occur,
+    although `cpu`, `tid`, `pid`, `nrunning` have no duplicate policy).  `SysInv`
+    holds again after the flush. -/
+theorem emu_event_sys {e e' : Emu} {ti mc c v : Nat} {p : List Nat}
+    {th mh : Emu → Nat → Nat → Nat → List Nat → Except Err Emu} (hth : HookSys th) (hmh : HookSys mh)
+    {tl cl : List Lv3} (hs : Shaped e) (hi : SysInv e tl cl)
+    (h : modelEvent e ti mc c v p th mh = .ok e') :
+    sysEmit e' tl cl =
+      (match sysRecords e' with
+      | .error x => .error x
+      | .ok s => .ok (newRows newT e'.threads tl, newRows newC e'.cpus cl, s)) ∧
+    SysInv e'.flushAll (newRows newT e'.threads tl) (newRows newC e'.cpus cl) :=
+  sysEmit_eq hi (SysS.modelEvent hth hmh h hs)
+
+/-- Right after `emu_connect` no system channel has been emitted. -/
+theorem sysInv_init (threads : List (Int × Int × Nat)) (cpus : List (Nat × Int × Bool)) (enabled : List Nat)
+    (lint : Bool) (extra : List ModelSpec) : SysInv (mkEmu threads cpus enabled lint extra) [] [] := by
+  have hg : ∀ (ign : Bool), Good ({ ignoreDup := ign } : Chan) none :=
+    fun ign => ⟨⟨rfl, rfl, rfl, fun h => by cases h⟩, rfl, rfl, Or.inl rfl⟩
+  constructor
+  · intro g t ht
+    simp only [mkEmu, List.getElem?_mapIdx] at ht
+    cases hx : threads[g]? with
+    | none => rw [hx] at ht; cases ht
+    | some x =>
+      obtain ⟨tid, pid, loom⟩ := x
+      rw [hx] at ht
+      simp only [Option.map_some, Option.some.injEq] at ht
+      subst ht
+      exact ⟨hg false, hg true, hg false⟩
+  · intro g x hx
+    simp only [mkEmu, List.getElem?_mapIdx] at hx
+    cases hy : cpus[g]? with
+    | none => rw [hy] at hx; cases hx
+    | some y =>
+      obtain ⟨loom, index, virt⟩ := y
+      rw [hy] at hx
+      simp only [Option.map_some, Option.some.injEq] at hx
+      subst hx
+      exact ⟨hg true, hg true, hg true⟩
+
+/-- **The system rows along a history.**  For every accepted history the
+    system-channel callbacks never fail, and `SysInv` holds at the end (so
+    `emu_event_sys` applies at every instant). -/
+theorem emu_history_sys {th mh : Emu → Nat → Nat → Nat → List Nat → Except Err Emu} (hth : HookSys th)
+    (hmh : HookSys mh) (hths : HookSim th) (hmhs : HookSim mh) (evs : List Ev) :
+    ∀ {e eF : Emu} {rs : List PrvRec} {tl cl : List Lv3},
+    Shaped e → SysInv e tl cl → replay th mh e evs = .ok (eF, rs) → ∃ tlF clF, SysInv eF tlF clF := by
+  induction evs with
+  | nil =>
+    intro e eF rs tl cl _ hi h
+    injection h with h; injection h with h1 _
+    subst h1
+    exact ⟨tl, cl, hi⟩
+  | cons ev evs ih =>
+    intro e eF rs tl cl hs hi h
+    rw [replay] at h
+    split at h
+    · cases h
+    · rename_i e2 rs1 hstep
+      split at h
+      · cases h
+      · rename_i eF' rs2 hrest
+        injection h with h; injection h with h1 _
+        subst h1
+        obtain ⟨e1, hme, _, rfl⟩ := stepEv_ok hstep
+        obtain ⟨_, hi1⟩ := emu_event_sys hth hmh hs hi hme
+        have hs1 : Shaped e1.flushAll := ((Sim.modelEvent hths hmhs hme) hs).1.flushAll
+        exact ih hs1 hi1 hrest
+
+/-- **All lines of one accepted step** (`stepEv = ok (e2, rs)`), system rows and
+    model rows together.  The emit callbacks of `bay_propagate` — those of the
+    system channels (`sysEmit`, lines `s`) and those of the track outputs
+    (`Bay.propagateP`, lines `L`) — all succeed; `s` is exactly `sysRecords`; `L`
+    is a permutation of a list `Lr` whose effective lines are `viewRecordsC`; and
+    when no CPU is fresh, `rs`, the records of the step, are a permutation of `s`
+    followed by the effective lines of `Lr`: **`records` = the lines written,
+    minus the lines that repeat what their row already shows**. -/
+theorem emu_step_lines {e e2 : Emu} {b0 b : Bay} {ti mc c v : Nat} {p : List Nat} {rs : List PrvRec}
+    {th mh : Emu → Nat → Nat → Nat → List Nat → Except Err Emu} (hth : HookSim th) (hmh : HookSim mh)
+    (hths : HookSys th) (hmhs : HookSys mh)
+    {fresh : Nat → Bool} {lvs : List (Option Value)} {tvs : List Int} {tl cl : List Lv3}
+    (hc : e.shape.connect = .ok b0) (hs : Shaped e) (hi : Inv b0 e b) (hf : FreshInv e.shape b fresh)
+    (hE : EmitInv e.shape.regs lvs tvs b) (hS : SysInv e tl cl) (hfl : SpecFlagsOk e.specs)
+    (hd : CpuDfltOk e.specs) (h : stepEv e ti mc c v p th mh = .ok (e2, rs)) :
+    ∃ e1 b1 bF lvs' L Lr s tl' cl', modelEvent e ti mc c v p th mh = .ok e1 ∧ e2 = e1.flushAll ∧
+      Bay.Writes (· < e.shape.L) b b1 ∧
+      sysEmit e1 tl cl = .ok (tl', cl', s) ∧ sysRecords e1 = .ok s ∧
+      b1.propagateP e.shape.regs lvs = .ok (bF, lvs', L) ∧ L.Perm Lr ∧
+      viewRecordsC e e1 fresh (freshE fresh e1) = .ok ((Lr.filter (effective tvs)).map (·.2)) ∧
+      Inv b0 e2 bF ∧ FreshInv e.shape bF (freshE fresh e1) ∧ EmitInv e.shape.regs lvs' (tvStep tvs L) bF ∧
+      SysInv e2 tl' cl' ∧
+      ((∀ cg, cg < e.cpus.length → fresh cg = false) →
+        rs.Perm (s ++ (Lr.filter (effective tvs)).map (·.2))) := by
+  obtain ⟨e1, b1, bF, lvs', L, Lr, s, vr, hme, rfl, hw, hpp, hinv, hfF, hE', hsys, hvr, hLr, hvrL, hperm⟩ :=
+    emu_step_records hth hmh hc hs hi hf hE hfl hd h
+  obtain ⟨hse, hS'⟩ := emu_event_sys hths hmhs hs hS hme
+  rw [hsys] at hse
+  exact ⟨e1, b1, bF, lvs', L, Lr, s, _, _, hme, rfl, hw, hse, hsys, hpp, hLr, hvrL ▸ hvr, hinv, hfF, hE', hS',
+    fun hnf => hvrL ▸ hperm hnf⟩
+
 /-
 -- OPEN (what is left of the last composition step).
 --
@@ -877,25 +1626,66 @@ theorem emu_run_driver (threads : List (Int × Int × Nat)) (cpus : List (Nat ×
 -- the order in which the CPU track outputs enter the dirty list
 -- (`C20.dirty_level_ordered_sys`).
 --
+-- Proved since (section "The emit phase", `Emu/Emit.lean`, `Lemmas/Emit*.lean`,
+-- `Lemmas/CoreBayFresh.lean`): former item (1), `View.records` vs what the emit callbacks
+-- write, and former item (2), the one place where row values differ.
+--   * `Emu/Emit.lean` transcribes `prv_register` / `cb_prv` / `emit` (duplicate rules with
+--     `last_value`, `PRV_EMITDUP`, `PRV_SKIPDUP`, `PRV_SKIPDUPNULL`, `PRV_NEXT`, `PRV_ZERO`) and
+--     the second loop of `bay_propagate` (`Bay.propagateP`); `Shape.regs` is the table
+--     `model_pvt_connect_thread` / `_cpu` register (every track output / ANY raw channel).
+--   * The LITERAL statement "`records e e'` is a permutation of the lines `emit` writes" is
+--     FALSE for the code as it is (`decide` examples at the end of the file): an output is
+--     on the dirty list whenever its mux was re-selected, also with an unchanged value; with
+--     `PRV_EMITDUP` (Nanos6 task type / rank, OpenMP) and `PRV_SKIPDUPNULL` (all nOS-V
+--     channels, the marks) a non-null duplicate IS written again, and the first emission of
+--     any channel is written even when the value is null (line `…:0`).  `emitView` emits only
+--     on change.  The true relation, proved for every accepted event (`emit_step`,
+--     `emu_event_emit`, `emu_step_records`) and lifted to histories (`emu_history_emit`,
+--     `emu_run_emit`, `emu_run_emit_driver`): the lines written are a permutation of a list
+--     whose EFFECTIVE lines — those that change what their Paraver row shows — are exactly
+--     the model rows of `records`; every other line repeats the value its row already
+--     shows (invisible in a timeline; the e2e comparison X2 canonicalises them away).  The
+--     emit phase fails iff the model rows of `records` fail (`emu_event_fail_iff`), always
+--     with "forbidden value 0" (the duplicate error of `emit` cannot occur: every generated
+--     channel has a duplicate policy, `generated_prv_flags`).
+--   * Former (2): a CPU track with a mux default on a CPU whose `th_running` was never
+--     written shows null where `cpuView` shows the default.  Now exact: `cpuViewC fresh`
+--     (`emu_cpu_rows_fresh`, ghost `fresh` with invariant `FreshInv`); the model rows with
+--     `cpuViewC` are `viewRecordsC`, equal to `viewRecords` as soon as no CPU is fresh
+--     (`viewRecordsC_of_settled`).  Consequence for lines: when a fresh CPU gets its first
+--     thread and the new value equals the default, `emit` writes the default (the row showed
+--     0), `records` writes nothing (`cpuView` showed the default from the start) — the
+--     `strip_base` canonicalisation of X2.
+--
 -- Still open:
---  (1) `View.records` = what the emit callbacks see.  `emu_event` gives the VALUES of all
---      rows after every event; the RECORDS additionally need the emit side: `BAY_CB_EMIT`
---      on every track output / ANY raw channel, the PRV duplicate rules of `prv.c: emit`
---      (`PRV_SKIPDUP`, `PRV_SKIPDUPNULL`, `PRV_EMITDUP` per channel) and the statement
---      "`records e e'` is a permutation of the lines `emit` writes for `b1.emitPhase`".
---      An output is on the dirty list whenever its mux was re-selected, also with an
---      unchanged value; `View.emitView` emits only on change, i.e. it already folds the
---      SKIPDUP behaviour in.  Not modelled in Lean; covered by X2 (e2e comparison of
---      every PRV line with the real `ovniemu`).
---  (2) The one place where values differ (`emu_cpu_rows`, second disjunct): a CPU track
---      with a non-null default on a CPU whose `th_running` was never written shows null in
---      the bay (and in the C emulator), the default in `cpuView`.  No record is involved.
---  (3) The system channels that no mux reads (thread `cpu` / `tid`, CPU `nrunning` /
---      `pid` / `tid`) are not part of `bayOf`; their rows are `emitRaw` of the emulator
---      channel itself.
---  (4) The task layer of nOS-V / Nanos6 (`VT*`, `VY*`, `6T*`, `6Y*`) is a hook of
---      `modelEvent` (`Emu/Task.lean` has its own state); for it `HookSim` is a hypothesis
---      (`hooks_in_use`: it holds for the hooks the driver runs, `noHook` and `markEvent`).
+--  (1) In `emu_step_records` the equation `rs ~ sysRecords ++ effective lines` is stated for
+--      states without fresh CPUs; with fresh CPUs the right-hand side is `viewRecordsC`
+--      (exact), which differs from `viewRecords` on the CPU rows with a mux default only.
+--  (2) `PRV_ZERO` channels are excluded from the bay-side emit theorems (`NoZero`: with
+--      `PRV_ZERO` null and 0 both show as 0 and "effective" would have to be stated on
+--      values, not lines); no model channel has the flag (`generated_prv_flags`), only the
+--      system row `nrunning`, for which the lines are exact anyway (3).
+--  (3) The system channels (thread `cpu` / `tid` / `state` row, CPU `nrunning` / `pid` /
+--      `tid`) are not part of the `Bay` model / `Shape.regs`: the reference emulator keeps
+--      them in its `Thread` / `Cpu` records and their emit callback is modelled on those
+--      records (`sysEmit`).  Proved for them (`emu_event_sys`, `emu_history_sys`,
+--      `emu_step_lines`): the callbacks write exactly `sysRecords` (a dirty system channel
+--      never holds its `last_value` again — `SysOk`, structural induction over the handlers
+--      `SysS.modelEvent` — so the duplicate error of `emit` cannot occur).  Not modelled:
+--      that these channels sit on the same dirty list as the bay's (only the order of the
+--      lines within one timestamp depends on it), and the state channel / `th_running` /
+--      `th_active` exist twice (record and bay source, tied by `Mirrors`).
+--  (4) The task layer of nOS-V / Nanos6 (`VT*`, `VY*`, `6T*`, `6Y*`): `HookSim` is now
+--      PROVED for the task hook (`Emu/TaskHook.lean`, `hooks_in_use_task`, `emu_event_task`,
+--      `emu_history_task`).  What stays open there: the hook keeps the task layer's own copy
+--      of the task channels (`Ovni.Task.Emu.ch` / `.ss`, on which `Ovni.Task.Emu.step` runs
+--      its duplicate checks and `enforce_task_rules`) next to the thread's real channels in
+--      `Emu`; that the two agree along a history (a coupling invariant between `ε` and the
+--      raw channels) is not proved, so the hook may refuse an event the C code accepts only
+--      if they ever disagreed.  `modelEvent` does not pass the event value to the hook and
+--      `Emu` has no task state: the hook is a per-event closure (`replayT`), and the decoding
+--      of payloads into `Ovni.Task.Ev` is the caller's.  The driver (`Drivers/Emu.lean`)
+--      still runs `noHook`; C07's check drives the task layer through its own driver.
 --  (5) `emu_init` / `emu_run` keep three side conditions on the spec list (accepted
 --      tracking modes so that `Shape.connect` succeeds — `bayOf_connects`; distinct model
 --      characters; connect-time values on single channels) and "at least one thread".
@@ -1191,5 +1981,206 @@ def exInitBay : Bay :=
 example : (exInitBay.chan (exEmu.shape.cpuOut 1 1 6)).cur = .null ∧
     (match exEmu.cpus[1]? with | some x => cpuView exEmu x specNosv 6 | none => .null) = .int 101 ∧
     (exInitBay.chan (exEmu.shape.idx (.raw 0 1 6))).cur = .int 100 ∧ exInitBay.dirty = [] := by decide
+
+/-! ### Non-vacuity of the emit theorems
+
+A thread with one raw stack channel tracked ACT: channels 0 = thread state,
+1 = raw channel, 2 = track output, registered as row 1, type 10 with
+`PRV_SKIPDUPNULL` (the nOS-V flags).  Event A: the thread starts running and
+pushes 7.  Event B: the thread goes to *cooling* — still active, so `cb_select`
+re-selects the same input and rewrites the output with the same value 7. -/
+
+def exPSrc : Bay :=
+  let b := (({} : Bay).register {}).1
+  (b.register { isStack := true }).1
+def exP0 : Bay := (unwrap (exPSrc, 0) (exPSrc.trackThread trackAct 0 1)).1
+def exPRegs : List PrvReg := [⟨2, 0, 1, 10, prvSkipDupNull⟩]
+def exPA1 : Bay := unwrap exP0 ((unwrap exP0 (exP0.chanSet 0 (.int 1))).chanPush 1 (.int 7))
+def exPA : Bay × List (Option Value) × List (Nat × PrvRec) :=
+  unwrap (exPA1, [], []) (exPA1.propagateP exPRegs [none])
+def exPB1 : Bay := unwrap exPA.1 (exPA.1.chanSet 0 (.int 4))
+def exPB : Bay × List (Option Value) × List (Nat × PrvRec) :=
+  unwrap (exPB1, [], []) (exPB1.propagateP exPRegs exPA.2.1)
+
+/-- Event A: one line, the one `emitView` gives; `last_value` becomes 7. -/
+example : exPA1.propagateP exPRegs [none] = .ok exPA ∧ exPA.2.2 = [(0, ⟨0, 1, 10, 7⟩)] ∧
+    exPA.2.1 = [some (.int 7)] ∧ exP0.viewRecs exPRegs exPA.1 = .ok [⟨0, 1, 10, 7⟩] :=
+  ⟨by rfl, by decide, by decide, by decide⟩
+
+/-- **The literal statement "`records` = the lines written" is false for the
+    code as it is.**  Event B: the output is dirty with an unchanged value; with
+    `PRV_SKIPDUPNULL` a non-null duplicate is written again, so the emit phase
+    writes the line `1:10:7` a second time, while `emitView` (hence `records`)
+    gives nothing.  The extra line is not *effective*: it repeats the 7 the row
+    already shows — exactly what `Bay.emit_step` / `emit_step` state. -/
+example : exPB1.propagateP exPRegs exPA.2.1 = .ok exPB ∧ exPB.2.2 = [(0, ⟨0, 1, 10, 7⟩)] ∧
+    exPA.1.viewRecs exPRegs exPB.1 = .ok [] ∧ exPB.2.2.filter (effective [7]) = [] :=
+  ⟨by rfl, by decide, by decide, by decide⟩
+
+/-- Same with a thread that starts running with an EMPTY channel: `cb_select`
+    writes null to the never-emitted output, `last_value` is not set, so `emit`
+    writes the line `1:10:0`; `emitView null null` gives nothing.  Not effective
+    either: a row shows 0 before its first line. -/
+example :
+    let b1 := unwrap exP0 (exP0.chanSet 0 (.int 1))
+    (match b1.propagateP exPRegs [none] with
+      | .ok (bF, _, L) => decide (L = [(0, ⟨0, 1, 10, 0⟩)] ∧ exP0.viewRecs exPRegs bF = .ok [] ∧
+          L.filter (effective [0]) = [])
+      | .error _ => false) = true := by decide
+
+/-- The failure case: pushing the value 0 on a channel without `PRV_ZERO`.
+    Both sides fail with "forbidden value 0". -/
+example :
+    let b1 := unwrap exP0 ((unwrap exP0 (exP0.chanSet 0 (.int 1))).chanPush 1 (.int 0))
+    (match b1.propagateP exPRegs [none] with
+      | .error x => decide (x = .prvZero)
+      | .ok _ => false) = true ∧
+    (match b1.propagate with
+      | .ok (bF, _) => decide (exP0.viewRecs exPRegs bF = .error .prvZero)
+      | .error _ => false) = true := by decide
+
+/-- `Bay.emit_step` applies to event B: all its hypotheses hold (`EmitInv`
+    after event A comes from `Bay.emit_step` for event A, from the all-null bay). -/
+example : ∃ lvs tvs, EmitInv exPRegs lvs tvs exPA.1 := by
+  have hfl : ∀ r ∈ exPRegs, DupOk r.flags ∧ NoZero r.flags := by decide
+  have wf0 : exP0.WF := by
+    have w : exPSrc.WF := (Bay.WF.empty.register _ rfl).register _ rfl
+    have h1 : exPSrc.trackThread trackAct 0 1 = .ok (exP0, 2) := by rfl
+    obtain ⟨_, b1, mi, h2, h3⟩ := Bay.trackThread_ok (Or.inr rfl) h1
+    obtain ⟨w1, hmi, hmx, _⟩ := (w.register {} rfl).muxInit h2
+    exact (w1.muxSetInput h3 (by
+      intro m hm
+      have hmi0 : mi = 0 := hmi
+      subst hmi0
+      rw [hmx] at hm
+      have : (exPSrc.register {}).1.muxes = [] := rfl
+      rw [this] at hm
+      simp only [List.nil_append, List.getElem?_cons_zero, Option.some.injEq] at hm
+      subst hm; decide)).1
+  have hnull : exP0.AllNull := by
+    intro c
+    match c with
+    | 0 => rfl
+    | 1 => rfl
+    | 2 => rfl
+    | _ + 3 => rfl
+  have hw : Bay.Writes (fun _ => True) exP0 exPA1 :=
+    .snoc (b1 := unwrap exP0 (exP0.chanSet 0 (.int 1))) (c := 1)
+      (f := fun x => Chan.push (unwrap exP0 (exP0.chanSet 0 (.int 1))).maxStack x (.int 7))
+      (.snoc (b1 := exP0) (c := 0) (f := fun x => x.set (.int 1)) (.nil _) trivial (chanOp_set _) (by rfl))
+      trivial (chanOp_push _ _) (by rfl)
+  have hp : exPA1.propagate = .ok (exPA.1, []) := by rfl
+  obtain ⟨_, _, h3⟩ := Bay.emit_step wf0 hw hp (EmitInv.ofNull exPRegs hnull) hfl
+  obtain ⟨lvs', L, _, hpp, _, _, hE⟩ := h3 _ (by decide : exP0.viewRecs exPRegs exPA.1 = .ok [⟨0, 1, 10, 7⟩])
+  exact ⟨lvs', _, hE⟩
+
+/-- The emulator-level theorems apply to the concrete history `exHist` on
+    `exEmu` (ovni + nOS-V, two threads, two CPUs — nOS-V has an idle channel with
+    a CPU mux default, so both CPUs start fresh): all hypotheses of
+    `emu_run_emit` hold, hence the emit phase succeeds at connect time and after
+    each of the six events, and the invariants hold at the end. -/
+example : ∃ eF rs bF lvsF tvsF freshF, replay exNoHook exNoHook exEmu exHist = .ok (eF, rs) ∧
+    Inv exEmuBay eF bF ∧ FreshInv exEmu.shape bF freshF ∧ EmitInv exEmu.shape.regs lvsF tvsF bF := by
+  cases h : replay exNoHook exNoHook exEmu exHist with
+  | error x => have := exHist_accepted; rw [h] at this; cases this
+  | ok r =>
+    obtain ⟨eF, rs⟩ := r
+    obtain ⟨hfl, hiv, hd⟩ := driver_emit_conditions [79, 86] []
+    obtain ⟨_, _, _, _, bF, lvsF, tvsF, freshF, _, _, _, _, _, _, hiF, hfF, hEF⟩ :=
+      emu_run_emit hookSim_none hookSim_none _ _ _ _ _ exHist exEmuBay_connect (by decide) exEmu_chars
+        exEmu_initSingle hfl hiv hd h
+    exact ⟨eF, rs, bF, lvsF, tvsF, freshF, rfl, hiF, hfF, hEF⟩
+
+example : exEmu.shape.regs.length = 32 ∧ (exEmu.shape.regs.map (·.chan)).Nodup := by decide
+
+/-- `prv_register` accepts the whole table: the (file, row, type) keys are
+    distinct, the flags pass `check_flags`, the channels exist. -/
+example : (exEmu.shape.regs.foldl (fun (acc : Except Err (List PrvReg)) r => match acc with
+      | Except.ok rs => prvRegister exEmuBay rs r
+      | Except.error x => Except.error x) (Except.ok [])) = Except.ok exEmu.shape.regs := by decide
+
+/-! ### Non-vacuity of the task-layer theorems
+
+`exEmu` (ovni + nOS-V), process with app id 1 and no rank.  History: thread 0
+starts (`OHx`), a task type and a task are created (`VYc`, `VTc`: no channel
+write), the task runs and ends on thread 0 (`VTx`: subsystem push + body id,
+task id, type, app id; `VTe`: pop + the four set to null), the thread ends. -/
+
+def exHistT : List EvT :=
+  [((0, 79, 72, 120, [0, 0, 0, 0]), none),
+   ((0, 86, 89, 99, []), some (.typeCreate 1 7 true)),
+   ((0, 86, 84, 99, []), some (.taskCreate false 1 1)),
+   ((0, 86, 84, 120, []), some (.task 0 .x 1 0)),
+   ((0, 86, 84, 101, []), some (.task 0 .e 1 0)),
+   ((0, 79, 72, 101, []), none)]
+
+theorem exHistT_accepted :
+    (match replayT .nosv ⟨1, -1⟩ [] exEmu Ovni.Task.Emu.init exHistT with
+      | .ok r => decide (r.2.2.length = 36)
+      | .error _ => false) = true := by decide
+
+/-- All hypotheses of `emu_init_emit` and `emu_history_task` hold for the
+    history with task events; hence the bay run with the PRV callbacks exists and
+    the invariants hold at the end — without any hook hypothesis. -/
+example : ∃ eF εF rs bF lvsF tvsF freshF, replayT .nosv ⟨1, -1⟩ [] exEmu Ovni.Task.Emu.init exHistT = .ok (eF, εF, rs) ∧
+    Inv exEmuBay eF bF ∧ FreshInv exEmu.shape bF freshF ∧ EmitInv exEmu.shape.regs lvsF tvsF bF := by
+  cases h : replayT .nosv ⟨1, -1⟩ [] exEmu Ovni.Task.Emu.init exHistT with
+  | error x => have := exHistT_accepted; rw [h] at this; cases this
+  | ok r =>
+    obtain ⟨eF, εF, rs⟩ := r
+    obtain ⟨hfl, hiv, hd⟩ := driver_emit_conditions [79, 86] []
+    obtain ⟨hs, _, bI, lvsI, tvsI, _, _, _, hi, hf, hE⟩ :=
+      emu_init_emit _ _ _ _ _ exEmuBay_connect (by decide) exEmu_chars exEmu_initSingle hfl hiv
+    obtain ⟨bF, lvsF, freshF, Ls, _, _, _, _, hiF, hfF, hEF⟩ :=
+      emu_history_task .nosv ⟨1, -1⟩ [] exHistT exEmuBay_connect hs hi hf hE hfl hd h
+    exact ⟨eF, εF, rs, bF, lvsF, _, freshF, rfl, hiF, hfF, hEF⟩
+
+/-! ### Non-vacuity of `emu_step_lines`, final clause included
+
+One thread, one CPU, only the ovni model (no mux default, so no CPU is ever
+fresh: `FreshInv.of_null_defaults`).  Event: `OHx`. -/
+
+def exEmuO : Emu := mkEmu [(100, 10, 0)] [(0, 0, false)] [79] false []
+
+theorem exEmuO_connect : exEmuO.shape.connect = .ok (bayOf exEmuO) := by rfl
+
+theorem exEmuO_step :
+    (match stepEv exEmuO 0 79 72 120 [0, 0, 0, 0] exNoHook exNoHook with
+      | .ok r => decide (r.2.length = 6)
+      | .error _ => false) = true := by decide
+
+/-- All hypotheses of `emu_step_lines` hold, premise of the last clause
+    included: the six records of `OHx` (thread cpu / tid / state, CPU pid / tid /
+    nrunning) are a permutation of the system-row lines followed by the
+    effective lines of the track outputs. -/
+example : ∃ (e2 : Emu) (rs s : List PrvRec) (Lr : List (Nat × PrvRec)) (tvs : List Int),
+    stepEv exEmuO 0 79 72 120 [0, 0, 0, 0] exNoHook exNoHook = .ok (e2, rs) ∧
+    rs.Perm (s ++ (Lr.filter (effective tvs)).map (·.2)) := by
+  cases h : stepEv exEmuO 0 79 72 120 [0, 0, 0, 0] exNoHook exNoHook with
+  | error x => have := exEmuO_step; rw [h] at this; cases this
+  | ok r =>
+    obtain ⟨e2, rs⟩ := r
+    obtain ⟨hfl, hiv, hd⟩ := driver_emit_conditions [79] []
+    have hchars : ((allSpecs.filter (fun s : ModelSpec => [79].contains s.char) ++ []).map ModelSpec.char).Nodup := by
+      decide
+    have hinit : InitSingle (allSpecs.filter (fun s => [79].contains s.char) ++ []) := by
+      rw [List.append_nil]; exact initSingle_allSpecs _
+    obtain ⟨hs, _, bI, lvsI, tvsI, _, _, _, hi, hf, hE⟩ :=
+      emu_init_emit _ _ _ _ _ exEmuO_connect (by decide) hchars hinit hfl hiv
+    have hb := Shape.connect_built exEmuO_connect
+    have hnull : ∀ (mi : Nat) (m : Mux), bI.muxes[mi]? = some m → m.dflt = .null := by
+      intro mi m hm
+      rw [hi.muxes] at hm
+      cases hb.isTrack hm with
+      | th g k i ms out _ _ _ _ => rfl
+      | cpu c k i ms out _ hk _ =>
+        have hms : ms ∈ exEmuO.shape.specs := List.mem_of_getElem? hk
+        have : ∀ ms ∈ exEmuO.shape.specs, ms.cpuDefault = [] := by decide
+        simp only [ModelSpec.cpuDflt, this ms hms, List.find?_nil]
+    have hf' : FreshInv exEmuO.shape bI (fun _ => false) := hf.of_null_defaults hnull
+    obtain ⟨_, _, _, _, _, Lr, s, _, _, _, _, _, _, _, _, _, _, _, _, _, _, hperm⟩ :=
+      emu_step_lines hookSim_none hookSim_none hookSys_none hookSys_none exEmuO_connect hs hi hf' hE
+        (sysInv_init _ _ _ _ _) hfl hd h
+    exact ⟨e2, rs, s, Lr, tvsI, rfl, hperm (fun _ _ => rfl)⟩
 
 end Ovni.Props.C06
